@@ -135,7 +135,8 @@ def gen_pair(fggs, rng, mode):
     meta = dict(mode=mode, n1=n1, n2=n2, pre=[list(pre1), list(pre2)], variants=[str(s['k']) for s in skels if isinstance(s['k'], str)])
     if mode == 'terminal-named-like-pair':
         # a terminal literally called like a paired nonterminal
-        nm = f'<{n1[1]},{n2[1]}>'
+        kk = rng.choice([0, 1, 1])           # sometimes the pair of the two START symbols
+        nm = f'<{n1[kk]},{n2[kk]}>'
         rhs = fggs.Graph()
         n = fggs.Node(A, id='zz0')
         rhs.add_node(n)
